@@ -14,3 +14,50 @@ package smx509
 //@   loop 1 decreases len(privKey.PrivateKey)
 //@   heapnonnil
 //@   modifies everything
+
+// ---- certificate signature gates (C15). A parent key certifies only if the parent is a CA
+// (basic constraints valid and cA set; a v3 parent without basic constraints is refused), its key
+// usage - when present - includes certSign, and its key algorithm is known; the signature is then
+// checked over the child's TBS bytes and signature value with the parent's public key.
+//@ func (*Certificate).CheckSignatureFrom property C15
+//@   requires c != nil && parent != nil
+//@   bind after call checkSignature#1: OK := ite(isnil(result), 1, 0)
+//@   assert before call checkSignature#1: arg0 == c.SignatureAlgorithm && sameslice(arg1, c.RawTBSCertificate) && sameslice(arg2, c.Signature) && id(arg3) == id(parent.PublicKey)
+//@   ensures isnil(result) ==> OK == 1
+//@   ensures isnil(result) ==> !(parent.Version == 3 && !parent.BasicConstraintsValid) && !(parent.BasicConstraintsValid && !parent.IsCA)
+//@   ensures isnil(result) ==> (parent.KeyUsage == 0 || (parent.KeyUsage / 32) % 2 == 1) && parent.PublicKeyAlgorithm != 0
+//@   modifies nothing
+
+//@ func signaturePublicKeyAlgoMismatchError trusted
+//@   ensures !isnil(result)
+//@   modifies nothing
+//@ func isRSAPSS trusted
+//@   modifies nothing
+
+// algorithm dispatch: nil only if the verification primitive that matches both the signature
+// algorithm's key type and the dynamic type of the key accepted; SM2-with-SM3 hands the unhashed
+// message to the SM2 verifier (which computes ZA itself), every other algorithm the digest; MD5 is
+// refused, SHA-1 only when allowed
+//@ func checkSignature property C15
+//@   let SA := objof(signed)
+//@   let SO := offof(signed)
+//@   let SL := len(signed)
+//@   bind after call Sum#1: HOBJ := objof(result)
+//@   bind after call VerifyPSS#1: RPSS := ite(isnil(result), 1, 0)
+//@   bind after call VerifyPKCS1v15#1: RP15 := ite(isnil(result), 1, 0)
+//@   bind after call VerifyASN1WithSM2#1: RSM2 := ite(result, 1, 0)
+//@   bind after call VerifyASN1#1: REC := ite(result, 1, 0)
+//@   bind after call Verify#1: RED := ite(result, 1, 0)
+//@   assert before call Write#1: objof(arg0) == SA && offof(arg0) == SO && len(arg0) == SL
+//@   assert before call VerifyASN1WithSM2#1: algo == SM2WithSM3 && isnil(arg1) && sameslice(arg3, signature)
+//@   assert before call VerifyASN1WithSM2#1: hashType == 0 ==> objof(arg2) == SA && offof(arg2) == SO && len(arg2) == SL
+//@   assert before call VerifyASN1#1: algo != SM2WithSM3 && sameslice(arg2, signature) && pubKeyAlgo == ECDSA
+//@   assert before call VerifyASN1WithSM2#1: pubKeyAlgo == ECDSA
+//@   assert before call Verify#1: sameslice(arg2, signature) && pubKeyAlgo == Ed25519
+//@   assert before call VerifyPSS#1: sameslice(arg3, signature) && pubKeyAlgo == RSA
+//@   assert before call VerifyPKCS1v15#1: sameslice(arg3, signature) && pubKeyAlgo == RSA
+//@   ensures isnil(err) ==> RPSS == 1 || RP15 == 1 || RSM2 == 1 || REC == 1 || RED == 1
+//@   loop 1 invariant -1 <= rangeindex && rangeindex < len(signatureAlgorithmDetails)
+//@   loop 1 decreases len(signatureAlgorithmDetails) - rangeindex
+//@   heapnonnil
+//@   modifies nothing
